@@ -413,6 +413,64 @@ pub unsafe extern "C" fn renameat(fd1: c_int, from: *const c_char, fd2: c_int, t
     }
     unsafe { libc::syscall(libc::SYS_renameat, fd1, from, fd2, to) as c_int }
 }
+// ---------------------------------------------------------------- programs: record and refuse
+
+type SpawnFn = unsafe extern "C" fn(*mut libc::pid_t, *const c_char, *const c_void, *const c_void, *const *mut c_char, *const *mut c_char) -> c_int;
+
+unsafe fn next_spawn(name: &[u8]) -> Option<SpawnFn> {
+    let p = unsafe { libc::dlsym(libc::RTLD_NEXT, name.as_ptr() as *const c_char) };
+    if p.is_null() { None } else { Some(unsafe { std::mem::transmute::<*mut c_void, SpawnFn>(p) }) }
+}
+
+/// Simulated code has no business starting other programs (what they would do is outside the
+/// simulation): recorded as `EX <path>` and refused.  The harness's own worker processes pass.
+#[unsafe(no_mangle)]
+pub unsafe extern "C" fn posix_spawn(pid: *mut libc::pid_t, path: *const c_char, fa: *const c_void, attr: *const c_void, argv: *const *mut c_char, envp: *const *mut c_char) -> c_int {
+    if observing() {
+        unsafe { log_parts(&[b"EX ", cstr_bytes(path)]) };
+        return libc::ENOENT;
+    }
+    match unsafe { next_spawn(b"posix_spawn\0") } {
+        Some(f) => unsafe { f(pid, path, fa, attr, argv, envp) },
+        None => libc::ENOSYS,
+    }
+}
+#[unsafe(no_mangle)]
+pub unsafe extern "C" fn posix_spawnp(pid: *mut libc::pid_t, file: *const c_char, fa: *const c_void, attr: *const c_void, argv: *const *mut c_char, envp: *const *mut c_char) -> c_int {
+    if observing() {
+        unsafe { log_parts(&[b"EX ", cstr_bytes(file)]) };
+        return libc::ENOENT;
+    }
+    match unsafe { next_spawn(b"posix_spawnp\0") } {
+        Some(f) => unsafe { f(pid, file, fa, attr, argv, envp) },
+        None => libc::ENOSYS,
+    }
+}
+#[unsafe(no_mangle)]
+pub unsafe extern "C" fn execve(path: *const c_char, argv: *const *const c_char, envp: *const *const c_char) -> c_int {
+    if observing() {
+        unsafe { log_parts(&[b"EX ", cstr_bytes(path)]) };
+        set_errno(libc::ENOENT);
+        return -1;
+    }
+    unsafe { libc::syscall(libc::SYS_execve, path, argv, envp) as c_int }
+}
+#[unsafe(no_mangle)]
+pub unsafe extern "C" fn execvp(file: *const c_char, argv: *const *const c_char) -> c_int {
+    if observing() {
+        unsafe { log_parts(&[b"EX ", cstr_bytes(file)]) };
+        set_errno(libc::ENOENT);
+        return -1;
+    }
+    type ExecvpFn = unsafe extern "C" fn(*const c_char, *const *const c_char) -> c_int;
+    let p = unsafe { libc::dlsym(libc::RTLD_NEXT, b"execvp\0".as_ptr() as *const c_char) };
+    if p.is_null() {
+        set_errno(libc::ENOSYS);
+        return -1;
+    }
+    unsafe { std::mem::transmute::<*mut c_void, ExecvpFn>(p)(file, argv) }
+}
+
 /// A change made through a descriptor (permissions, length, timestamps): recorded under the
 /// name the descriptor was opened with, as seen from the simulated world.
 fn log_fd_change(fd: c_int) {
@@ -622,14 +680,15 @@ pub fn library_closed_world_check(job: &crate::job::Job, res: &mut crate::job::R
         res.harness("seam log overflow");
     }
     res.count("c10_library_runs_checked", 1);
-    let bad: Vec<String> = lines.into_iter().filter(|l| l.starts_with("NET ") || l.starts_with("W ") || l.starts_with("MK ") || l.starts_with("RM ") || l.starts_with("MV ")).collect();
+    let bad: Vec<String> = lines.into_iter().filter(|l| l.starts_with("NET ") || l.starts_with("EX ") || l.starts_with("W ") || l.starts_with("MK ") || l.starts_with("RM ") || l.starts_with("MV ")).collect();
     if !bad.is_empty() {
         let net = bad.iter().any(|b| b.starts_with("NET "));
+        let ex = bad.iter().any(|b| b.starts_with("EX "));
         res.violate(crate::job::Violation {
             property: "C10".into(),
-            oracle: if net { "C10.no_network".into() } else { "C10.writes_confined".into() },
-            class: if net { "network_call".into() } else { "write_outside_configured".into() },
-            detail: format!("while linting through the library / the JS-facing API ({}), Harper {}: {:?}", job.engine, if net { "made a network call" } else { "created or modified files" }, bad.iter().take(6).collect::<Vec<_>>()),
+            oracle: if net { "C10.no_network".into() } else if ex { "C10.no_helper_program".into() } else { "C10.writes_confined".into() },
+            class: if net { "network_call".into() } else if ex { "program_started".into() } else { "write_outside_configured".into() },
+            detail: format!("while linting through the library / the JS-facing API ({}), Harper {}: {:?}", job.engine, if net { "made a network call" } else if ex { "started another program" } else { "created or modified files" }, bad.iter().take(6).collect::<Vec<_>>()),
             facts: serde_json::json!({"engine": job.engine}),
         });
     }
